@@ -70,9 +70,26 @@ def random_history(rng, nev=10):
 
 
 def run_script(exe, cmds, timeout=600):
-    p = vlib.sh([exe], stdin="\n".join(cmds) + "\n", timeout=timeout)
+    try:
+        p = vlib.sh([exe], stdin="\n".join(cmds) + "\n", timeout=timeout)
+    except vlib.Infra as ex:
+        if "timeout" in str(ex):
+            return "timeout", [], str(ex)
+        raise
     lines = p.stdout.splitlines()
     return p.returncode, lines, p.stderr
+
+
+def died(rc):
+    """the driver was killed by a signal (the library crashed) or did not return: never seen on a sound tree"""
+    return rc == "timeout" or (isinstance(rc, int) and rc < 0)
+
+
+def crash_violation(v, what, rc, cmds, err):
+    last = [c for c in cmds if not c.startswith(("QUIET", "DUMP"))][-12:]
+    v.violation("%s/%s" % (what, "no-return" if rc == "timeout" else "crash"),
+                "the solver driver %s while executing a history of the specification's alphabet; last commands: %s %s" % (
+                    "did not return" if rc == "timeout" else "died with signal %s" % (-rc), last, err[-300:]), {"script": cmds[-400:]})
 
 
 def trace_cfg(name):
@@ -212,7 +229,7 @@ def parse_dumps(lines):
     return out
 
 
-def flow_replay(exe, cases, jobs=14, timeout=1800):
+def flow_replay(exe, cases, jobs=14, timeout=900):
     """cases: list of dict(edge=final edge of the history, edges=[edge after each segment], mode, t04, move).
     Runs every history on the real solver; returns list of (case index, seg index, max abs err, scale, t_err) and failures."""
     import concurrent.futures
@@ -232,6 +249,9 @@ def flow_replay(exe, cases, jobs=14, timeout=1800):
     fails = []
     with concurrent.futures.ThreadPoolExecutor(max_workers=jobs) as ex:
         for (rc, lines, err), chunk in zip(ex.map(work, [c for c in chunks if c]), [c for c in chunks if c]):
+            if died(rc):
+                fails.append("CRASH: solver_drive rc=%s while replaying flow histories %s: %s" % (rc, [i for i, _ in chunk][:40], err[-600:]))
+                continue
             if rc != 0:
                 fails.append("solver_drive rc=%s: %s" % (rc, err[-1000:]))
                 continue
@@ -278,7 +298,7 @@ def flow_replay(exe, cases, jobs=14, timeout=1800):
     return res, fails
 
 
-def stepctl_replay(exe, edges, one, cfgs, modes, jobs=14, timeout=1800):
+def stepctl_replay(exe, edges, one, cfgs, modes, jobs=14, timeout=900):
     """Replay histories of module StepCtl that contain Evolve actions (values in units of 2^-10 of a tick).
     one: {(cfg, (sw, n, td)): SolverFlow edge} for the exact state after n whole ticks with all terms on.
     Returns (results, fails): results = list of (edge index, verdict dict)."""
@@ -308,6 +328,9 @@ def stepctl_replay(exe, edges, one, cfgs, modes, jobs=14, timeout=1800):
     results = []; fails = []
     with concurrent.futures.ThreadPoolExecutor(max_workers=jobs) as ex:
         for rc, lines, err, meta in ex.map(work, [c for c in chunks if c]):
+            if died(rc):
+                fails.append("CRASH: solver_drive rc=%s while replaying step-control histories: %s" % (rc, err[-600:]))
+                continue
             if rc != 0 or any('"e":"Exception"' in l for l in lines):
                 fails.append("solver_drive rc=%s %s %s" % (rc, [l for l in lines if "Exception" in l][:1], err[-400:]))
                 continue
